@@ -22,6 +22,7 @@ type RunOpts struct {
 	CheckLockIdle    bool // C09a: lock state idle between transactions
 	CheckStats       bool // C11: FileStats equal reality
 	CheckSpace       bool // C11: probe + live + meta area + 2 == max pages; extent <= max size
+	CheckResize      bool // C14: oracles around reopen with FlagUpdMaxSize
 	CheckReopenState bool // C10: internal state before Close equals state after Open
 	Record           bool // record observations for twin comparisons
 	Drain            bool // wait for the background writer after scheduling calls
@@ -104,6 +105,7 @@ type Runner struct {
 	txSyncs0      int
 	openTx        *txfile.Tx
 	lastProbe     int
+	resize        *resizeInfo
 }
 
 // StatsObserver records the most recent stats reported by the file.
@@ -417,6 +419,27 @@ func (r *Runner) reopen(ro *Reopen) *Violation {
 	if r.F != nil {
 		before = r.F.VerifState()
 	}
+	probeBefore := -1
+	oldMax := r.curMax
+	if ro.Mode == 2 && r.O.CheckResize && r.F != nil {
+		n, v := r.Probe()
+		if v != nil {
+			return v
+		}
+		probeBefore = n
+	}
+	// previous extent: file size or allocated extent (pages that are allocated
+	// but not yet written lie beyond the current file size)
+	extentBefore := r.Disk.CurSize()
+	if r.F != nil {
+		end := before.DataEnd
+		if before.MetaEnd > end {
+			end = before.MetaEnd
+		}
+		if e := int64(end) * int64(r.P.Cfg.PageSize); e > extentBefore {
+			extentBefore = e
+		}
+	}
 	if v := r.closeFile(); v != nil {
 		return v
 	}
@@ -427,6 +450,7 @@ func (r *Runner) reopen(ro *Reopen) *Violation {
 	case 2:
 		opts = r.openOpts
 		opts.Flags |= txfile.FlagUpdMaxSize
+		opts.InitMetaArea = 0 // only used on creation (and validated against the max size)
 		opts.MaxSize = uint64(ro.NewMax) * uint64(r.P.Cfg.PageSize)
 		opts.Prealloc = ro.Prealloc
 		if ro.NewMax == 0 {
@@ -446,6 +470,53 @@ func (r *Runner) reopen(ro *Reopen) *Violation {
 		r.count("resize")
 	}
 	after := f.VerifState()
+	if ro.Mode == 2 && r.O.CheckResize {
+		if v := r.checkLockIdle(); v != nil {
+			v.Msg = "right after opening with a new maximum size: " + v.Msg
+			return v
+		}
+		// the new limit is what the file reports
+		wantMax := uint64(ro.NewMax) * uint64(r.P.Cfg.PageSize)
+		if after.HdrMaxSize != wantMax || uint64(after.MaxSize) != wantMax {
+			return violationf("resize-limit", r.curItem, "opened with max size %d, file header says %d, allocator uses %d", wantMax, after.HdrMaxSize, after.MaxSize)
+		}
+		if r.Obsv.Open.MaxSize != wantMax {
+			return violationf("resize-limit", r.curItem, "opened with max size %d, OnOpen reported MaxSize %d", wantMax, r.Obsv.Open.MaxSize)
+		}
+		r.resize = &resizeInfo{oldMax: oldMax, newMax: ro.NewMax, extentBefore: extentBefore}
+		r.Disk.ResetMaxExtent()
+		if ro.NewMax > 0 && oldMax > 0 && probeBefore >= 0 {
+			n, v := r.Probe()
+			if v != nil {
+				return v
+			}
+			switch {
+			case ro.NewMax > oldMax && uint(before.DataEnd) <= oldMax:
+				r.count("resize-grow")
+				if n-probeBefore != int(ro.NewMax)-int(oldMax) {
+					return violationf("resize-grow", r.curItem, "maximum grew from %d to %d pages, but allocatable pages changed from %d to %d (expected +%d)",
+						oldMax, ro.NewMax, probeBefore, n, int(ro.NewMax)-int(oldMax))
+				}
+			case ro.NewMax < oldMax:
+				r.count("resize-shrink")
+				if n > probeBefore {
+					return violationf("resize-shrink", r.curItem, "maximum shrank from %d to %d pages, but allocatable pages grew from %d to %d", oldMax, ro.NewMax, probeBefore, n)
+				}
+			}
+		}
+		if len(before.WAL) > 0 {
+			r.count("resize-with-wal")
+		}
+		for _, reg := range before.DataFree {
+			if ro.NewMax > 0 && uint(reg.ID)+uint(reg.Count) > ro.NewMax {
+				r.count("resize-free-beyond-limit")
+				break
+			}
+		}
+		if ro.NewMax == 0 {
+			r.count("resize-unbounded")
+		}
+	}
 	if ro.Mode != 2 && r.O.CheckReopenState {
 		if msg := compareSnapshotsExact(&before, &after); msg != "" {
 			return violationf("reopen-state", r.curItem, "internal state differs across close/open: %s", msg)
@@ -766,6 +837,9 @@ func (t *txRun) commit() *Violation {
 	}
 	r.C = t.T
 	r.count("commit")
+	if r.resize != nil {
+		r.count("commit-after-resize")
+	}
 	s := r.F.VerifState()
 	if s.MetaTotal > t.snap0.MetaTotal {
 		r.count("meta-grow")
@@ -1295,6 +1369,16 @@ func (r *Runner) quiescentChecks() *Violation {
 			return v
 		}
 	}
+	if r.O.CheckResize && r.resize != nil && r.resize.newMax > 0 {
+		limit := int64(r.resize.newMax) * int64(r.P.Cfg.PageSize)
+		if r.resize.extentBefore > limit {
+			limit = r.resize.extentBefore
+		}
+		if ext := r.Disk.MaxExtent(); ext > limit {
+			return violationf("resize-extent", r.curItem, "after setting the maximum to %d pages the file grew to %d bytes; larger of previous extent and new limit is %d",
+				r.resize.newMax, ext, limit)
+		}
+	}
 	if r.O.CheckSpace && r.bounded() {
 		if v := r.checkSpace(); v != nil {
 			return v
@@ -1429,4 +1513,9 @@ func CheckPartition(s *txfile.VerifSnapshot, m *MState, item int, coverage bool)
 		}
 	}
 	return nil
+}
+
+type resizeInfo struct {
+	oldMax, newMax uint
+	extentBefore   int64
 }
